@@ -274,6 +274,16 @@ static void item_bytes(uint64_t i)
 		}
 		mm_free(e);
 	}
+	/* "treat the string as being 'size' bytes long": every proper prefix slice of
+	 * the buffer, including the zero-length one, with the remaining bytes (NUL or
+	 * not) lying behind it */
+	for (int k = 0; k < n; k++)
+		for (int plus = 0; plus < 2; plus++) {
+			char *e = evhttp_uriencode((const char *)x, k, plus);
+			MC_COUNT("oracle_encode_slice_checked");
+			check_encoding("uriencode-slice", e, x, (size_t)k, plus);
+			mm_free(e);
+		}
 	if (has_nul) { MC_COUNT("bytes_inputs_with_nul"); }
 	else {
 		char *e = evhttp_encode_uri((const char *)x), *d;
@@ -475,6 +485,12 @@ static const char *argp(int argc, char **argv, const char *name, const char *dfl
 	return dflt;
 }
 
+/* fixed bijection of the index range, see harness/c28_uri.c */
+static uint64_t perm_n, perm_k;
+static void (*real_item)(uint64_t);
+static uint64_t gcd64(uint64_t a, uint64_t b) { while (b) { uint64_t t = a % b; a = b; b = t; } return a; }
+static void item_permuted(uint64_t i) { real_item((uint64_t)(((__uint128_t)i * perm_k) % perm_n)); }
+
 int main(int argc, char **argv)
 {
 	struct mc_config cfg = { .property = "C29", .init = init };
@@ -482,13 +498,17 @@ int main(int argc, char **argv)
 	int len = atoi(argp(argc, argv, "len", "2"));
 	if (!strcmp(dom, "bytes")) {
 		if (len < 0 || len > 4) { fprintf(stderr, "c29: bad len\n"); return 2; }
-		bytes_maxlen = len; cfg.n_items = count_strings(256, len); cfg.item = item_bytes;
+		bytes_maxlen = len; cfg.n_items = count_strings(256, len); real_item = item_bytes;
 	} else if (!strcmp(dom, "dec")) {
 		if (len < 0 || len > 9) { fprintf(stderr, "c29: bad len\n"); return 2; }
-		cfg.n_items = count_strings(NDEC, len); cfg.item = item_dec;
+		cfg.n_items = count_strings(NDEC, len); real_item = item_dec;
 	} else if (!strcmp(dom, "query")) {
 		if (len < 0 || len > 10) { fprintf(stderr, "c29: bad len\n"); return 2; }
-		cfg.n_items = count_strings(NQ, len); cfg.item = item_query;
+		cfg.n_items = count_strings(NQ, len); real_item = item_query;
 	} else { fprintf(stderr, "c29: unknown dom %s\n", dom); return 2; }
+	perm_n = cfg.n_items;
+	for (perm_k = 2654435761ull % perm_n; perm_k < 2 || gcd64(perm_k, perm_n) != 1; perm_k++) ;
+	if (perm_n < 4) perm_k = 1;
+	cfg.item = item_permuted;
 	return mc_main(argc, argv, &cfg);
 }
